@@ -288,6 +288,57 @@ func sigVariants() []sigVariant {
 			}
 		}, expect: "signing-error"})
 	}
+	// a callback that fails the first time it is asked - after reading what it was handed - and works from then on:
+	// either the packaging fails as a signing failure, or whatever signature ends up in the package verifies
+	for _, v := range []struct{ name, format, method string }{{"debsign-callback-fails-once", "deb", ""}, {"dpkgsig-callback-fails-once", "deb", "dpkg-sig"}, {"rpm-callback-fails-once", "rpm", ""}} {
+		v := v
+		vs = append(vs, sigVariant{name: v.name, format: v.format, tweak: func(info *nfpm.Info, rec *cbRecord) {
+			asked := 0
+			fn := func(r io.Reader) ([]byte, error) {
+				data, _ := io.ReadAll(r)
+				asked++
+				if asked == 1 {
+					return nil, errBoom
+				}
+				rec.calls = append(rec.calls, data)
+				var sig bytes.Buffer
+				switch {
+				case v.method == "dpkg-sig":
+					wc, err := clearsign.Encode(&sig, ent().PrivateKey, nil)
+					if err != nil {
+						return nil, err
+					}
+					wc.Write(data)
+					wc.Close()
+					return sig.Bytes(), nil
+				case v.format == "deb":
+					err := openpgp.ArmoredDetachSign(&sig, ent(), bytes.NewReader(data), nil)
+					return sig.Bytes(), err
+				}
+				err := openpgp.DetachSign(&sig, ent(), bytes.NewReader(data), nil)
+				return sig.Bytes(), err
+			}
+			if v.format == "deb" {
+				info.Deb.Signature.Method, info.Deb.Signature.SignFn = v.method, fn
+			} else {
+				info.RPM.Signature.SignFn = fn
+			}
+		}, expect: "either"})
+	}
+	// a key id the key file does not hold: a signing failure like any other, or a signature that verifies all the same
+	for _, v := range []struct{ name, format, method string }{{"debsign-keyid-not-in-file", "deb", ""}, {"dpkgsig-keyid-not-in-file", "deb", "dpkg-sig"}, {"rpm-keyid-not-in-file", "rpm", ""}} {
+		v := v
+		vs = append(vs, sigVariant{name: v.name, format: v.format, tweak: func(info *nfpm.Info, _ *cbRecord) {
+			absent := "bc8acdd415bd80b4"
+			if v.format == "deb" {
+				info.Deb.Signature.KeyFile, info.Deb.Signature.Method, info.Deb.Signature.KeyID = testdata("privkey_unprotected.asc"), v.method, &absent
+			} else {
+				info.RPM.Signature.KeyFile, info.RPM.Signature.KeyID = testdata("privkey_unprotected.asc"), &absent
+			}
+			// (dpkg-sig ignores the key id and signs with the primary key: the signature verifies with the key file's
+			// public key, which is all the property asks; debsign and rpm refuse - then as a signing failure)
+		}, expect: "either"})
+	}
 	type rk struct{ name, file, pass string }
 	for _, k := range []rk{{"rsa", testdata("rsa_unprotected.priv"), ""}, {"rsa-protected", testdata("rsa.priv"), testPass}, {"rsa-pkcs8", testdata("rsa_pkcs8.priv"), testPass}} {
 		k := k
